@@ -18,6 +18,9 @@ class HarnessError(Exception):
     pass
 
 
+STATE = {'truncated': False}   # set when a run had to be cut short (stuck workers were killed)
+
+
 class Outcome:
     __slots__ = ('fails', 'labels', 'nontrivial', 'key', 'skipped', 'sample')
 
@@ -406,8 +409,42 @@ def run_property(pid, tier, seed, replay=None, only_sub=None, scale=1.0):
                 jobs.append((pid, s.name, sh, ns, n, seed, tier))
     ctx = multiprocessing.get_context('fork')
     nproc = int(os.environ.get('VERIF_PROCS', '16'))
-    with ctx.Pool(min(nproc, max(1, len(jobs)))) as pool:
-        results = pool.map(_job, jobs, chunksize=1)
+    # a worker that dies (killed, out of memory, interpreter crash) must end the run as a harness error, not hang it
+    import concurrent.futures as cf
+    budget = float(os.environ.get('VERIF_TIMEOUT', '900' if tier == 'quick' else '5400'))
+    results = []
+    ex = cf.ProcessPoolExecutor(max_workers=min(nproc, max(1, len(jobs))), mp_context=ctx)
+    try:
+        futs = [ex.submit(_job, j) for j in jobs]
+        done, pending = cf.wait(futs, timeout=budget)
+        if pending:
+            # keep what the finished jobs found; the run as a whole is truncated (inconclusive unless a violation was found)
+            print('TRUNCATED %d of %d jobs did not finish within %.0f s: %s' % (
+                len(pending), len(futs), budget, sorted(set('%s' % (j[1],) for j, f in zip(jobs, futs) if f in pending))))
+            sys.stdout.flush()
+            STATE['truncated'] = True
+            for f in pending:
+                f.cancel()
+            procs = list((getattr(ex, '_processes', None) or {}).values())
+            for f in futs:
+                if f in done:
+                    results.append(f.result())
+            for pr in procs:
+                try:
+                    pr.kill()
+                except Exception:
+                    pass
+        else:
+            for f in futs:
+                results.append(f.result())
+    except cf.process.BrokenProcessPool:
+        print('HARNESS-ERROR a worker process died (killed or crashed); inconclusive, not a violation')
+        return 2
+    finally:
+        try:
+            ex.shutdown(wait=False, cancel_futures=True)
+        except Exception:
+            pass
 
     fuzz_fails, fuzz_summary = ([], None)
     if tier == 'thorough' and not only_sub:
@@ -505,6 +542,7 @@ def run_property(pid, tier, seed, replay=None, only_sub=None, scale=1.0):
                              wall_s=round(a['wall'], 2), rule=subs[k].rule)
                      for k, a in per_sub.items()},
             corpus_replayed=corpus_n,
+            truncated=STATE['truncated'],
             coverage_guided_fuzzing=fuzz_summary,
             excluded_by_known=dict(excluded_known),
             known_findings_reported=known_lines,
@@ -524,4 +562,9 @@ def run_property(pid, tier, seed, replay=None, only_sub=None, scale=1.0):
         print('   %-22s evals=%-7d nontrivial=%-6d skipped=%s' % (sname, a['evals'], len(a['nontrivial']), dict(a['skipped']) or ''))
     for l in vio_lines:
         print(l)
-    return 1 if vio_lines else 0
+    if vio_lines:
+        return 1
+    if STATE['truncated']:
+        print('HARNESS-ERROR run truncated by the time budget without a violation: inconclusive')
+        return 2
+    return 0
